@@ -55,6 +55,8 @@ type World struct {
 	axioms      []*SpecAxiom
 	lemmas      map[string]*SpecLemma
 	ghostVars   map[string]Sort
+	aliases     map[string]map[string]string // rename recovery (alias.go): function key -> contract name -> source name
+	aliasNotes  []string
 	ghostFields map[string]ghostField // "pkg.Type.name"
 	funcSpecs   map[string]*FuncSpec
 	ifaceSpecs  map[string]*FuncSpec
